@@ -651,6 +651,12 @@ func Run(c *common.Ctx) error {
 		}
 		return history(c, cf, c.Rng.Fork(), 0, evs, doc.Wal || doc.Replay.Wal)
 	}
+	if err := primaryChange(c, c.Rng.Fork()); err != nil {
+		return err
+	}
+	if err := repeatedAcquire(c, c.Rng.Fork()); err != nil {
+		return err
+	}
 	idx := 0
 	// every fixed script in both journal modes
 	for _, wal := range []bool{false, true} {
